@@ -334,6 +334,17 @@ theorem succeeds_on_nonempty_specs {base : Str} {mul : Nat → Str}
 
 example : (findFmt (Attr.lit "(a)")).isSome = true := by decide +kernel
 
+/-! ### recorded findings about the spacing regex (known-findings/C20.txt) -/
+
+/-- KF-C20-1: CSS units are case-insensitive, but the unit class is `[a-z]`: for `1CM` the "number" group is the
+    whole string, which `float()` rejects (ValueError) -/
+theorem finding_uppercase_unit : cssSplit (Attr.lit "1CM") = some (Attr.lit "1CM", []) := by decide +kernel
+
+/-- KF-C20-2: a number written with a lower-case exponent is cut at the `e`: for `1e1mm` (= 10mm) the number is `1`
+    and the "unit" is `e`, so every level is indented by `(i+1).0e` -/
+theorem finding_lowercase_exponent : cssSplit (Attr.lit "1e1mm") = some (Attr.lit "1", Attr.lit "e") := by
+  decide +kernel
+
 /-! ### the string form -/
 
 theorem splitAux_ne_nil (d : Str) (fuel : Nat) (cur s : Str) : splitAux d fuel cur s ≠ [] := by
